@@ -156,6 +156,38 @@ func (a *accCtx) subViews(s *accState, viol func(sig, what string)) string {
 			}
 		}
 	}
+	for _, name := range []string{"current_sync_committee", "next_sync_committee"} {
+		i := a.idx(name)
+		if i < 0 {
+			continue
+		}
+		scv, err := common.AsSyncCommittee(c.Get(uint64(i)))
+		if !check("AsSyncCommittee("+name+")", err) {
+			continue
+		}
+		a.checkFieldGetters("SyncCommitteeView", scv, m.Items[i], []fieldGetter{{"AggregatePubkey", 1}}, viol)
+		pv, err := scv.Pubkeys()
+		if !check("SyncCommitteeView.Pubkeys", err) {
+			continue
+		}
+		flat, err := pv.Flatten()
+		if !check("SyncCommitteePubkeysView.Flatten", err) {
+			continue
+		}
+		a.b.Inc("subview_getter_checks")
+		a.b.SetAdd("subview_getters", "SyncCommitteeView.Pubkeys.Flatten")
+		want := m.Items[i].Items[0].Items
+		if len(flat) != len(want) {
+			viol("getter/SyncCommitteeView.Pubkeys", fmt.Sprintf("Pubkeys().Flatten() of %s on a %s state has %d keys, stored %d", name, a.fork, len(flat), len(want)))
+			continue
+		}
+		for k := range flat {
+			if string(flat[k][:]) != string(want[k].B) {
+				viol("getter/SyncCommitteeView.Pubkeys", fmt.Sprintf("Pubkeys().Flatten()[%d] of %s on a %s state is %x, stored %x", k, name, a.fork, flat[k][:8], want[k].B[:8]))
+				break
+			}
+		}
+	}
 	if i := a.idx("latest_execution_payload_header"); i >= 0 {
 		getters := []fieldGetter{{"ParentHash", 0}, {"FeeRecipient", 1}, {"StateRoot", 2}, {"ReceiptRoot", 3}, {"LogsBloom", 4}, {"Random", 5}, {"BlockNumber", 6}, {"GasLimit", 7}, {"GasUsed", 8},
 			{"Timestamp", 9}, {"ExtraData", 10}, {"BaseFeePerGas", 11}, {"BlockHash", 12}, {"TransactionsRoot", 13}, {"WithdrawalsRoot", 14}, {"BlobGasUsed", 15}, {"ExcessBlobGas", 16}}
